@@ -42,6 +42,7 @@ func (g *generator) generateParallel(
 	}); err != nil {
 		return err
 	}
+	g.requirePredeclared(b.Bytes())
 	if err := g.hiddenPackages(); err != nil {
 		return err
 	}
@@ -50,7 +51,7 @@ func (g *generator) generateParallel(
 	// declares no identifiers of its own, so that names in those expressions
 	// (e.g. an "err" variable of the enclosing function) keep referring to
 	// the user's variables rather than to the named result below.
-	if _, err := io.WriteString(w, "func() error {\n"); err != nil {
+	if _, err := io.WriteString(w, _wrapperOpen); err != nil {
 		return err
 	}
 
@@ -64,7 +65,7 @@ func (g *generator) generateParallel(
 	if err := prologueTmpl.ExecuteTemplate(w, _paramExprTmpl, paramExprs(exprs)); err != nil {
 		return err
 	}
-	if _, err := io.WriteString(w, "return func() (err error) {\n"); err != nil {
+	if _, err := io.WriteString(w, _closureOpen); err != nil {
 		return err
 	}
 	if _, err := w.Write(b.Bytes()); err != nil {
